@@ -44,6 +44,10 @@ T = {
     "UDP reply exactly as long as the client's limit"),
  "C45-evwatch-free-test-order": ("C45", "/tmp/adv_C45", "demo/patch.diff", "demo/run.sh", ["C45"],
     "two neighbouring watchers of one list that both free themselves in the same iteration"),
+ "C17-pair-finished-flush-skips-transfer": ("C17", "/tmp/adv_C17", "demo/patch.diff", "demo/run.sh", ["C17"],
+    "pair (or filter over pair) whose receiving end is not pulling (EV_READ disabled / suspended), bytes queued, sender calls bufferevent_flush(EV_WRITE, BEV_FINISHED)"),
+ "C17-sock-zero-length-read-eof": ("C17", "/tmp/adv_C17", "demo/patch2.diff", "demo/run.sh demo2", ["C17", "C18"],
+    "socket bufferevent with exactly N bytes buffered, bufferevent_setwatermark(EV_READ, low, N), then more data arrives (two cooperating sites)"),
  "C45-prepare-timeout-recomputed": ("C45", "/tmp/adv_C45", "demo/patch2.diff", "demo/run.sh", ["C45"],
     "a prepare watcher that adds/removes a timer or activates an event"),
 }
